@@ -290,7 +290,7 @@ PROPS = {
         'families': [
             {'name': 'accept', 'args': {'quick': ['--templates', 1, '--programs', 20000], 'thorough': ['--templates', 1, '--programs', 1000000]},
              'shards': {'quick': 16, 'thorough': 16}, 'driver_args': ['--nodedupe']},
-            {'name': 'tree', 'args': {'quick': ['--programs', 6000], 'thorough': ['--programs', 30000]},
+            {'name': 'tree', 'args': {'quick': ['--programs', 6000, '--joints', 1], 'thorough': ['--programs', 30000, '--joints', 1]},
              'shards': {'quick': 16, 'thorough': 16}, 'driver_args': []},
         ],
         'exhaustive': {'quick': True, 'thorough': True},
